@@ -562,3 +562,97 @@ impl fmt::Display for RecvError {
         "receiving from a closed channel".fmt(f)
     }
 }
+
+/// Safe façade over the mailbox channel for the verification harness (V1):
+/// `u64` values are sent to a model that records them in the order it
+/// processes them.
+#[cfg(nexosim_verif)]
+#[allow(missing_docs, missing_debug_implementations)]
+pub mod verif_channel {
+    use std::sync::{Arc, Mutex};
+
+    use recycle_box::{coerce_box, RecycleBox};
+
+    use super::{ChannelObserver, Receiver, Sender, THREAD_MSG_COUNT};
+    use crate::model::{Context, Model};
+    use crate::simulation::{Address, GlobalScheduler};
+    use crate::time::{MonotonicTime, TearableAtomicTime};
+    use crate::util::priority_queue::PriorityQueue;
+    use crate::util::sync_cell::SyncCell;
+
+    pub struct VModel {
+        received: Arc<Mutex<Vec<u64>>>,
+    }
+    impl Model for VModel {}
+
+    #[derive(Clone)]
+    pub struct VTx(Sender<VModel>);
+
+    pub struct VRx {
+        rx: Receiver<VModel>,
+        model: VModel,
+        cx: Context<VModel>,
+    }
+
+    pub struct VObserver(Box<dyn ChannelObserver>);
+
+    pub fn channel(capacity: usize) -> (VTx, VRx) {
+        let rx = Receiver::new(capacity);
+        let tx = VTx(rx.sender());
+        let time = SyncCell::new(TearableAtomicTime::new(MonotonicTime::EPOCH));
+        let scheduler =
+            GlobalScheduler::new(Arc::new(Mutex::new(PriorityQueue::new())), time.reader());
+        let cx = Context::new("verif".to_string(), scheduler, Address(rx.sender()));
+        let model = VModel {
+            received: Arc::new(Mutex::new(Vec::new())),
+        };
+
+        (tx, VRx { rx, model, cx })
+    }
+
+    impl VTx {
+        pub async fn send(&self, value: u64) -> Result<(), ()> {
+            self.0
+                .send(move |model: &mut VModel, _cx, recycle_box| {
+                    model.received.lock().unwrap().push(value);
+
+                    coerce_box!(RecycleBox::recycle(recycle_box, async {}))
+                })
+                .await
+                .map_err(|_| ())
+        }
+    }
+
+    impl VRx {
+        pub async fn recv(&mut self) -> Result<(), ()> {
+            self.rx
+                .recv(&mut self.model, &mut self.cx)
+                .await
+                .map_err(|_| ())
+        }
+        pub fn observer(&self) -> VObserver {
+            VObserver(Box::new(self.rx.observer()))
+        }
+        pub fn received_handle(&self) -> Arc<Mutex<Vec<u64>>> {
+            self.model.received.clone()
+        }
+    }
+
+    impl VObserver {
+        pub fn len(&self) -> usize {
+            self.0.len()
+        }
+        pub fn is_empty(&self) -> bool {
+            self.0.len() == 0
+        }
+    }
+
+    /// The calling thread's count of in-flight messages.
+    pub fn msg_count() -> isize {
+        THREAD_MSG_COUNT.get()
+    }
+
+    pub fn reset_msg_count() {
+        THREAD_MSG_COUNT.set(0);
+    }
+}
